@@ -1,0 +1,10 @@
+//go:build verif
+
+// Verification hook (add-only, compiled only with -tags verif): GetChunkHandler has only unexported
+// fields, so a harness outside this package cannot construct the real server side of the GetChunk protocol.
+package dsmr
+
+// VerifNewGetChunkHandler returns the real GetChunkHandler serving chunks from the given storage.
+func VerifNewGetChunkHandler[T Tx](storage *ChunkStorage[T]) *GetChunkHandler[T] {
+	return &GetChunkHandler[T]{storage: storage}
+}
